@@ -60,6 +60,8 @@ pub use actix_macros::test;
 mod arbiter;
 mod runtime;
 mod system;
+#[cfg(actix_net_verif)]
+pub mod verif;
 
 pub use tokio::pin;
 use tokio::task::JoinHandle;
